@@ -89,9 +89,24 @@ CLAIMS.update({
         text="Two instances of one compiled module (active data segment, mutable global, table with an element) through the real pipeline on the interpreter: after one arbitrary mutating call on the first "
              "(store / global.set / memory.grow / memory.fill / table.set with symbolic operands), the second instance's memory at a symbolic address, global, memory size and table element are exactly as freshly instantiated. "
              "File descriptors/stdio isolation and the compiler side are outside this claim."),
+    "C01": dict(level="translation_validation", engine="gosym", design_ref="DESIGN.md §3, §5 C01",
+        technique="translation validation by symbolic execution: the real front end + SSA passes compile each generated program, a reference evaluator of the emitted SSA and the real interpreter run on the same symbolic inputs, z3 decides equality",
+        text="For each program of a generated family (T1: 71 one-instruction integer/conversion/select programs; T3: 9 control-flow, loop, globals, multi-value call and trap-after-effect programs) the binary is compiled by the real "
+             "wazevo front end and optimisation passes and lowered by the real interpreter compiler; a reference evaluator of the optimised SSA and the real interpreter are then executed symbolically on the same arbitrary arguments, "
+             "memory (0..65536 pages) and globals, and the solver decides that outcome kind, every result bit, final globals and final memory are equal for ALL input values. Program shape is enumerated, values are symbolic. "
+             "The machine-code back end (instruction selection, register allocation, encoding), SIMD, atomics, tables and multi-call histories are outside this claim.",
+        note="Trusted: the reference SSA evaluator (harness/internal/engine/wazevo/frontend/ssaeval.go: the meaning given to each SSA opcode and to the module/execution context layout), gosym, z3. "
+             "A construct the evaluator does not model makes the check fail as unsupported, never pass."),
 })
+CLAIMS["C02"]["text"] += (" Compiler front end (L1): the optimised wazevo SSA of 23 load/store kinds x boundary static offsets and of 8 reuse shapes on the same base value "
+    "(two accesses, narrow-then-wide, across a call that may grow the memory, across memory.grow, store-then-load, across an if/else join, constant base bound to a local, memory.size/grow) is evaluated by a reference SSA evaluator in which "
+    "every dereference is an obligation (inside [0,size) of the CURRENT memory epoch - a call or grow moves the memory - or the module/execution context) and compared with the interpreter for all bases, sizes 0..65536 pages and contents. "
+    "The machine-code back end is outside the claim.")
+CLAIMS["C14"]["text"] += " Compiler front end: memory.size / memory.grow / memory.size compiled to SSA agrees with the interpreter for every size and delta (known finding at 65536 pages)."
 
 NOT_APPLICABLE = {
+    "C13": "Not built in this session: the on-disk cache code (internal/filecache, engine_cache.go) is mostly os/io calls; the planned environment model of a crash-prone file system (DESIGN.md §5 C13) was not reached. "
+           "Determinism of code generation is in any case outside what symbolic execution of the compiler can decide.",
     "C09": "Object lifetime under the Go collector, finalizers and munmap of code segments is a property of the Go run-time system, not of a function's "
            "input/output relation; gosym's heap has no collector and the emitted code has no notion of reclamation, so no solver query expresses it (DESIGN.md §6).",
 }
